@@ -148,3 +148,17 @@ Theorem C06_inflater_results_in_order : forall cf app, Proofs.DeliveryFacts.beni
              Proofs.DeliveryFacts.msg_events (k_tr c') = rev (map Proofs.DeliveryFacts.ev_of ms) ++ Proofs.DeliveryFacts.msg_events (k_tr c).
 Proof. exact Proofs.DeliveryZ.inflater_results_in_order. Qed.
 Print Assumptions C06_inflater_results_in_order.
+
+(* how such a connection comes about: from a fresh connection, the accepted reply block that negotiates the extension (any
+   configuration d that Response/Deflate.from_options reads from it: C06_configuration_through_the_handshake) leaves the
+   client between two frames with compression enabled in the frame parser, that configuration installed, the inflate tape
+   untouched, and no message event so far -- the state the whole-stream theorem starts from *)
+Theorem C06_accepted_extension_starts_a_compressed_connection : forall cf app, Proofs.DeliveryFacts.benign app ->
+  zpos (c_ping_timeout cf) = None -> forall c reply proto d,
+  k_ps c = Model.FrameParser.fp_init -> k_closed c = false -> k_closing c = false -> k_sent_close_time c = None ->
+  k_frames c = [] -> Proofs.DeliveryFacts.reply_block reply ->
+  on_response (c_accept cf) (parse_response reply) = HReady proto (Some d) ->
+  exists c', feedf cf app c reply = (c', SOk) /\ Proofs.DeliveryZ.idle_z d c' [] (k_ztape c) /\
+             Proofs.DeliveryFacts.msg_events (k_tr c') = Proofs.DeliveryFacts.msg_events (k_tr c) /\ k_sock c' = k_sock c.
+Proof. exact Proofs.DeliveryZ.handshake_idle_z. Qed.
+Print Assumptions C06_accepted_extension_starts_a_compressed_connection.
